@@ -16,6 +16,15 @@ CLAIMED = {
                 design_ref="DESIGN.md §4 C09", note=SC),
 }
 
+SEQ = ("Trusted base: the reference model written in the driver, clang-14 ASan, the enumeration bound stated in the evidence. "
+       "Only the enumerated scope is decided; it is decided completely (exhaustive flag in the evidence).")
+
+CLAIMED["C12"] = dict(engine="seqx", technique="bounded exhaustive input enumeration (full cross product of a boundary lattice) of the real functions against a 128-bit reference model",
+    text="dispatch_time and dispatch_walltime are run on the full cross product of a boundary lattice of bases (all three clock encodings, NOW constants, FOREVER, every 2^k+-j) and deltas, "
+         "plus timespec boundary values, under real and virtual clock readings; each result is compared with exact 128-bit arithmetic (same clock, exact shift or legitimate saturation), "
+         "monotonicity in delta is walked per base, and waits on already-elapsed results must not block.",
+    design_ref="DESIGN.md §5 C12", note=SEQ)
+
 NOT_YET = {}
 
 def main():
